@@ -8,6 +8,7 @@
 Everything random derives from ctx.rng (seeded from VERIF_SEED).
 """
 import fcntl
+import hashlib
 import json
 import os
 import random
@@ -289,7 +290,11 @@ class Ctx:
         st = self.streams.setdefault(stream, {'cases': 0})
         st['cases'] += 1
         if nontrivial and key is not None:
-            self.nontrivial.add((stream, key if isinstance(key, (str, int, tuple)) else json.dumps(key, sort_keys=True, default=str)))
+            k = key if isinstance(key, (str, int, tuple)) else json.dumps(key, sort_keys=True, default=str)
+            if not isinstance(k, int):
+                # distinctness only needs identity of keys: keep a 16-byte digest, not the (possibly very large) key itself
+                k = hashlib.blake2b(repr(k).encode('utf-8', 'surrogatepass'), digest_size=16).digest()
+            self.nontrivial.add((stream, k))
         if sample is not None and len([s for s in self.samples if s.get('stream') == stream]) < 3:
             self.samples.append({'stream': stream, 'case': sample})
 
